@@ -63,6 +63,7 @@ func RunC13(tier string) int {
 			run.Infra(err.Error())
 			return
 		}
+		env.MaybeTTY(run, fmt.Sprint(i), 6)
 		env.EnableHookLog()
 		keep := false
 		defer func() {
